@@ -8,7 +8,7 @@ Open Scope string_scope.
 Record ctxcase := {
   x_listing : list bytes; x_makefiles : list bytes; x_scripts : list bytes;     (* inputs (scripts: encoding/json oracle) *)
   x_types : list bytes; x_types2 : list bytes; x_boosts : list (bytes * float); x_boosts2 : list (bytes * float);
-  x_targets : list bytes; x_obs_scripts : list bytes; x_err : bool }.
+  x_targets : list bytes; x_obs_scripts : list bytes; x_err : bool; x_probe : list (bytes * float) }.
 
 Definition fbits_eqb (a b : float) : bool := PrimFloat.eqb a b || (negb (PrimFloat.eqb a a) && negb (PrimFloat.eqb b b)).
 Definition kv_eqb (a b : bytes * float) : bool := bytes_eqb (fst a) (fst b) && fbits_eqb (snd a) (snd b).
@@ -27,6 +27,10 @@ Definition check_case (c : ctxcase) : report :=
     else if mem_bytes generic (x_types c) && negb (Nat.eqb (List.length (x_types c)) 1) then Some "generic_only_when_nothing"
     else if negb (forallb (fun kv => good (snd kv)) (x_boosts c)) then Some "boost_finite_ge_1"
     else if negb (list_eqb bytes_eqb (x_types c) (x_types2 c)) || negb (list_eqb kv_eqb (x_boosts c) (x_boosts2 c)) then Some "deterministic"
+    else if negb (let pt := detect [bs ".git"; bs "Dockerfile"] in
+                  Nat.eqb (List.length (x_probe c)) (List.length (boost_keys pt [] [])) &&
+                  forallb (fun kv => match boost_lookup pt [] [] (fst kv) with Some v => fbits_eqb v (snd kv) | None => false end) (x_probe c))
+         then Some "function_of_the_listing"
     else None in
   let mtypes := detect (x_listing c) in
   let mtargets := flat_map make_targets (x_makefiles c) in
